@@ -387,6 +387,15 @@ def run(run):
     for text, res in classify_all(deep_texts(40), procs=4, chunk=8):
         judge(run, text, res, "deep-nesting")
         n_cases += 1
+    # -- "the same text always gives the same outcome": also in another process, under another string-hash
+    # seed, and whatever was parsed before it (fresh processes parse the sample in reversed order)
+    sample = sorted(by_text)[:: max(1, len(by_text) // (500 if quick else 5000))] + GUARD_TEXTS \
+        + sorted(vtexts)[:: max(1, len(vtexts) // (500 if quick else 5000))]
+    sample = sorted(set(sample))
+    here = dict((t, res[0]) for t, res in classify_all(sample, procs=4, chunk=200))
+    nx = cross_process(run, sample, here, seeds=(1, 2) if quick else (1, 2, 3, 4, 5))
+    run.cov["cross_process_outcomes_compared"] = nx
+    n_cases += nx
     # -- the read-eval-print loop on top of the parser (Repl.tla): continuation prompts follow the parser's
     # verdict on the buffer; a parser that fails with a host exception would make the loop ask for more for ever
     from . import repl
@@ -420,7 +429,74 @@ def run(run):
         raise MachineryError("no cases")
 
 
+_CROSS = r"""
+import sys, json, signal
+sys.path.insert(0, %r)
+from harness import c01
+from harness.common import import_ckl
+import_ckl()
+texts = json.load(open(sys.argv[1]))
+signal.signal(signal.SIGALRM, c01._alarm)
+out = []
+for t in reversed(texts):
+    signal.alarm(20)
+    try:
+        r = c01._classify(t)
+    except c01._Timeout:
+        r = ("timeout",)
+    finally:
+        signal.alarm(0)
+    out.append([t, list(r)])
+json.dump(out, open(sys.argv[2], "w"))
+"""
+
+
+def cross_process(run, texts, here, seeds):
+    import json
+    import os
+    import subprocess
+    import sys
+    import tempfile
+    d = tempfile.mkdtemp(prefix="c01x-")
+    n = 0
+    try:
+        src = os.path.join(d, "texts.json")
+        with open(src, "w") as f:
+            json.dump(texts, f)
+        root = os.path.dirname(os.path.dirname(os.path.abspath(__file__)))
+        procs = []
+        for sd in seeds:
+            out = os.path.join(d, f"out{sd}.json")
+            env = dict(os.environ, PYTHONHASHSEED=str(sd))
+            procs.append((sd, out, subprocess.Popen([sys.executable, "-c", _CROSS % root, src, out], env=env,
+                                                    stdout=subprocess.DEVNULL, stderr=subprocess.PIPE)))
+        for sd, out, pr in procs:
+            _, err = pr.communicate(timeout=1500)
+            if pr.returncode != 0 or not os.path.exists(out):
+                raise MachineryError(f"cross-process parse (seed {sd}) failed: {err.decode()[-300:]}")
+            for t, r in json.load(open(out)):
+                n += 1
+                a = here.get(t)
+                if a is None or a[0] == "timeout" or r[0] == "timeout":
+                    continue
+                if list(a) != list(r):
+                    run.violation("crossproc:" + t,
+                                  f"nondeterministic: {t!r} gives {tuple(a)} in this process and {tuple(r)} in a fresh process "
+                                  f"with string-hash seed {sd} (texts parsed in reversed order)",
+                                  {"text": t, "kind": "cross", "seed": sd})
+    finally:
+        import shutil
+        shutil.rmtree(d, ignore_errors=True)
+    return n
+
+
 def replay(run, case):
+    if case.get("kind") == "cross":
+        import_ckl()
+        a = _classify(case["text"])
+        got = cross_process(run, [case["text"]], {case["text"]: a}, seeds=(case["seed"], case["seed"] + 7))
+        run.cov["evaluations"] = got
+        return
     if case.get("kind") == "repl":
         from . import repl
         prompts, outputs, exc = repl.session(case["lines"])
